@@ -1,25 +1,90 @@
 From Coq Require Import List Bool.
-From LTV.C18 Require Import Model Proofs.
+From LTV.C18 Require Import Model Proofs ProofsA ProofsB ProofsC ProofsD.
 Import ListNotations.
+
+(* All theorems below: for ALL main-thread programs p0 and disk-thread programs p1 (hypotheses: each chunk id is
+   pushed at most once = distinct HashChunk objects; the disk thread only runs process_callbacks), for ALL
+   schedules (reachable = closure under [step s t] for both threads). Model assumptions: sequentially
+   consistent atomics, atomic<bool>::wait(false) enabled iff the flag is true, mutex sections atomic except
+   chunk_done (lock modelled explicitly). *)
 
 Theorem params_ok_now : Proofs.params_ok = true.
 Proof. exact Proofs.params_ok_now. Qed.
 Print Assumptions params_ok_now.
 
-(* ONE_NOTIFICATION / LOCATION_INV / REMOVE_RETURNS_SAFE / NO_ORPHAN_RESULT / NO_LOST_WAKEUP - PARTIAL.
-   Proved: for the program  main: push(chunk 0, torrent 0); remove(torrent 0); process_callbacks
-                            disk: process_callbacks
-   EVERY interleaving (explored inside Coq, bound 40 steps in the statement) keeps, in every state:
-   loc_ok (each node's chunk is in exactly one of {check queue, disk thread's hands, done map}, and those
-   places hold only chunks that have a node), notes_ok (no chunk notified twice; a notified chunk is in
-   none of those places and has no node), err = false ("could not find done chunk's node" not thrown);
-   and every maximal run ends with both threads finished (no deadlock, no lost wake-up between
-   remove's wait and chunk_done's notify).
-   MISSING: the same as inductive invariants for ALL programs and schedules (the state predicates
-   loc_ok / notes_ok are written for that purpose; their preservation proof over Model.step is not
-   done), digest correctness (the digest value is checked against OpenSSL by the harness only),
-   mapping release counts (observed by the harness: blocking count = number of nodes at the end).
-   Larger programs are covered by the correspondence run + oracle only. *)
+(* the inductive invariant itself: per chunk id,  #check queue + #hands + #done map = #nodes   and
+   #pushes to come + #nodes + #notifications <= 1 ; and the orphan error flag is clear *)
+Theorem counting_invariant : forall p0 p1 s, distinct_pushes p0 p1 -> reachable (init p0 p1) s -> inv s.
+Proof. exact ProofsB.reachable_inv. Qed.
+Print Assumptions counting_invariant.
+
+(* LOCATION_INV: a pending chunk (one with a HashQueue node) is in exactly one of {check queue, disk thread's
+   hands, done map}; a chunk without a node is in none of them *)
+Theorem location_inv : forall p0 p1 s c, distinct_pushes p0 p1 -> reachable (init p0 p1) s ->
+  (has_node c (hq s) = true -> cnt c (cq s) + in_hands_n c s + cnt c (dn s) = 1) /\
+  (has_node c (hq s) = false -> cnt c (cq s) = 0 /\ in_hands_n c s = 0 /\ cnt c (dn s) = 0).
+Proof. exact ProofsB.location_inv. Qed.
+Print Assumptions location_inv.
+
+(* NO_ORPHAN_RESULT: work()'s internal_error("Could not find done chunk's node.") is unreachable *)
+Theorem no_orphan_result : forall p0 p1 s, distinct_pushes p0 p1 -> reachable (init p0 p1) s -> err s = false.
+Proof. exact ProofsB.no_orphan_result. Qed.
+Print Assumptions no_orphan_result.
+
+(* ONE_NOTIFICATION (trace level: [notes] is the list of all notifications delivered so far): every chunk is
+   notified at most once, never both with a digest and with a cancellation, and a notified chunk has no node
+   and is in none of the three places (so the disk thread can no longer touch it) *)
+Theorem one_notification : forall p0 p1 s c, distinct_pushes p0 p1 -> reachable (init p0 p1) s ->
+  cnt c (nchunks (notes s)) <= 1 /\
+  (1 <= cnt c (nchunks (notes s)) ->
+     has_node c (hq s) = false /\ cnt c (cq s) = 0 /\ in_hands_n c s = 0 /\ cnt c (dn s) = 0).
+Proof. exact ProofsB.one_notification. Qed.
+Print Assumptions one_notification.
+Theorem never_both_digest_and_cancel : forall p0 p1 s c, distinct_pushes p0 p1 -> reachable (init p0 p1) s ->
+  ~ (In (Digest c) (notes s) /\ In (Cancelled c) (notes s)).
+Proof. exact ProofsB.not_both. Qed.
+Print Assumptions never_both_digest_and_cancel.
+
+(* REMOVE_RETURNS_SAFE: while remove(t) scans, every node of t is still on its list (nothing is skipped); the
+   step that ends the call leaves no node of t, hence (location_inv) no chunk of t in the check queue, in the
+   disk thread's hands or in the done map; each of those chunks was notified exactly once (one_notification:
+   that notification is where the mapping reference is released; the count itself is observed by the
+   harness: blocking handles = remaining nodes) *)
+Theorem remove_scan_complete : forall p0 p1 s t l, distinct_pushes p0 p1 -> disk_only p1 -> reachable (init p0 p1) s ->
+  rem_view (td0 s) = Some (t, l) -> forall n, In n (hq s) -> snd n = t -> In n l.
+Proof. exact ProofsC.remove_scan_complete. Qed.
+Print Assumptions remove_scan_complete.
+Theorem remove_returns_safe : forall p0 p1 s s2 t l, distinct_pushes p0 p1 -> disk_only p1 -> reachable (init p0 p1) s ->
+  rem_view (td0 s) = Some (t, l) -> step s 0 = Some s2 ->
+  (forall l', rem_view (td0 s2) <> Some (t, l')) ->
+  forall n, In n (hq s2) -> snd n <> t.
+Proof. exact ProofsC.remove_returns_safe. Qed.
+Print Assumptions remove_returns_safe.
+
+(* NO_LOST_WAKEUP: whenever main sits in remove's wait with the flag clear, the awaited chunk still has its node,
+   is NOT already in the done map, and is either in the disk thread's hands or in the check queue with a
+   perform() callback running / queued on the disk thread *)
+Theorem no_lost_wakeup : forall p0 p1 s c t l rest,
+  distinct_pushes p0 p1 -> disk_only p1 -> reachable (init p0 p1) s ->
+  td0 s = IRemWait c t l :: rest -> flag s = false ->
+  has_node c (hq s) = true /\ cnt c (dn s) = 0 /\
+  ((in_hands_n c s = 1 /\ cnt c (cq s) = 0) \/
+   (cnt c (cq s) = 1 /\ in_hands_n c s = 0 /\ (0 < dq s \/ perf_in (td1 s) = true))).
+Proof. exact ProofsD.no_lost_wakeup. Qed.
+Print Assumptions no_lost_wakeup.
+(* ... and a chunk in the disk thread's hands is published by ONE always-enabled disk step that sets the flag *)
+Theorem wakeup_progress : forall s c rest,
+  td1 s = IPublish c :: rest -> exists s', step s 1 = Some s' /\ flag s' = true.
+Proof. exact ProofsD.wakeup_progress. Qed.
+Print Assumptions wakeup_progress.
+
+(* DEADLOCK FREEDOM - PARTIAL. Proved: the state facts above (no_lost_wakeup + wakeup_progress), i.e. the
+   wake-up is never lost. MISSING: the liveness statement "remove terminates under disk-thread fairness":
+   it needs (a) a fairness/looping assumption for the disk thread (the model's disk program is a FINITE list
+   of process_callbacks calls, so a disk thread that has run out of them while a perform() callback is
+   still queued is a deadlock of the model, not of the code), and (b) a variant (position of the chunk in
+   the check queue) for the perform() loop. The finite instance below explores every interleaving of one
+   small program inside Coq (bound 40 steps in the statement) and finds every maximal run finished. *)
 Theorem hashing_handoff_instance_partial : explore 40 prog_a = true.
 Proof. exact Proofs.instance_a. Qed.
 Print Assumptions hashing_handoff_instance_partial.
